@@ -1287,5 +1287,5 @@ func TestC26(t *testing.T) {
 	run.Observe("histories_with_kill", int64(st.killed))
 	run.Observe("slow_consumer_stalls", int64(st.stalls))
 	run.Require("receives", "hooks_sessions", "messages_delivered", "messages_required", "returned_nil_on_unsubscribe", "returned_ErrClosing", "returned_ctx_error", "returned_connection_error",
-		"receives_overlapping_another", "hook_channels_drained", "echo_replies_checked", "wedge_probe_runs", "wedge_probe_clean", "receives_confirmed_by_subscription_hook", "slow_consumer_stalls", "backlog_context_ended_with_reader_parked_in_publish", "backlog_receive_returned", "lost_connection_hook_histories", "lost_connection_channels_drained", "lost_connection_channels_with_one_error")
+		"receives_overlapping_another", "hook_channels_drained", "echo_replies_checked", "wedge_probe_runs", "wedge_probe_clean", "receives_confirmed_by_subscription_hook", "slow_consumer_stalls", "backlog_context_ended_with_reader_parked_in_publish", "lost_connection_hook_histories", "lost_connection_channels_drained", "lost_connection_channels_with_one_error")
 }
